@@ -74,7 +74,7 @@ Proof.
       reflexivity.
     + reflexivity.
   - apply keeps_bind; [apply keeps_lift|]. intro tg.
-    apply keeps_bind; [apply keeps_lift | intro; apply keeps_on_src].
+    apply keeps_bind; [apply keeps_lift|]. intro ws. destruct (forallb _ ws); [apply keeps_fail|apply keeps_on_src].
   - apply keeps_bind; [apply keeps_dsge_read|]. intro v. apply keeps_bind; [apply keeps_lift|]. intro l.
     destruct l; [apply keeps_fail|]. destruct (znth _ _); [apply keeps_ret | apply keeps_fail].
 Qed.
